@@ -485,6 +485,62 @@ def exporter(ctx: Context) -> Tuple[FuncInfo, ast.Dict]:
     raise AnalysisError("C08.d: exporter (method returning {'_current':..,'_history':..}) not found")
 
 
+def _upward_exposed(m: FuncInfo, use: ast.AST, attr: str) -> bool:
+    """The read of self.<attr> at `use` can see a value stored before the method was entered: some path from the
+    entry reaches it without passing a store to self.<attr> made by the method itself."""
+    fl = flow_of(m.node)
+    at = fl.node_containing(use)
+    if at is None:
+        return True
+    stores = []
+    for nd in fl.cfg.stmt_nodes():
+        if nd.kind == "stmt" and isinstance(nd.stmt, (ast.Assign, ast.AnnAssign)) and nd.id != at.id:
+            tg = nd.stmt.targets if isinstance(nd.stmt, ast.Assign) else [nd.stmt.target]
+            for t in tg:
+                for tt in (t.elts if isinstance(t, (ast.Tuple, ast.List)) else [t]):
+                    if isinstance(tt, ast.Attribute) and isinstance(tt.value, ast.Name) and tt.value.id == "self" and tt.attr == attr:
+                        stores.append(nd.id)
+    if not stores:
+        return True
+    return fl.cfg.reaches(fl.cfg.entry.id, at.id, blocked=stores)
+
+
+def _reads_iter(e: ast.AST) -> bool:
+    return any(isinstance(c, ast.Call) and isinstance(c.func, ast.Attribute) and c.func.attr == "get_current"
+               and isinstance(call_arg(c, 0, "key"), ast.Constant) and call_arg(c, 0, "key").value == "iter" for c in ast.walk(e))
+
+
+def _returns_restored_iter(ctx: Context, fi: FuncInfo, value: ast.AST) -> bool:
+    """`value` is a call of a method whose every returned value reads the restored 'iter' (directly, through locals,
+    or through an attribute of self the method stores from it before returning)."""
+    if not isinstance(value, ast.Call):
+        return False
+    tgts = [t for t in ctx.res.call_targets(fi, value) if isinstance(t, FuncInfo)]
+    if not tgts:
+        return False
+    for t in tgts:
+        fl = flow_of(t.node)
+        rets = [r for r in walk_no_nested(t.node) if isinstance(r, ast.Return)]
+        if not rets or any(r.value is None for r in rets):
+            return False
+        for r in rets:
+            rn = fl.node_containing(r)
+            if rn is None:
+                return False
+            rv = ExprResolver(t.node).resolve(r.value, rn)
+            if _reads_iter(rv):
+                continue
+            ok = False
+            if isinstance(r.value, ast.Attribute) and isinstance(r.value.value, ast.Name) and r.value.value.id == "self":
+                stores = [nd for nd in fl.cfg.stmt_nodes() if nd.kind == "stmt" and isinstance(nd.stmt, ast.Assign)
+                          and any(isinstance(tt, ast.Attribute) and dotted(tt) == dotted(r.value) for tt in nd.stmt.targets)]
+                if stores and not fl.cfg.reaches(fl.cfg.entry.id, rn.id, blocked=[nd.id for nd in stores]):
+                    ok = all(_reads_iter(ExprResolver(t.node).resolve(nd.stmt.value, nd)) for nd in stores if fl.cfg.reaches(nd.id, rn.id))
+            if not ok:
+                return False
+    return True
+
+
 def rule_d(ctx: Context, R: Reporter):
     exp, dlit = exporter(ctx)
     exported = {k.value: v for k, v in zip(dlit.keys, dlit.values) if isinstance(k, ast.Constant)}
@@ -634,7 +690,7 @@ def rule_d(ctx: Context, R: Reporter):
                     a_ = x.attr
                 elif isinstance(x, ast.Call) and dotted(x.func) == "getattr" and len(x.args) >= 2 and isinstance(x.args[0], ast.Name) and x.args[0].id == "self" and isinstance(x.args[1], ast.Constant):
                     a_ = x.args[1].value
-                if a_ in assigned:
+                if a_ in assigned and _upward_exposed(m, x, a_):
                     readers.setdefault(a_, m)
         wkeys = set().union(*[k for q, k in written.items() if ctx.prog.functions[q].cls is cls]) if any(ctx.prog.functions[q].cls is cls for q in written) else set()
         restored = set()
@@ -786,6 +842,12 @@ def rule_e(ctx: Context, R: Reporter):
                     ok_all = False
                     continue
                 on_resume = cfg.reaches(load_node.id, d.node.id)
+                if d.node.id == load_node.id and d.value is not None:
+                    # t0 is what the loader itself hands back: its returned value must read the restored counter
+                    ri = _returns_restored_iter(ctx, fi, d.value)
+                    detail.append((unparse(d.value), ri))
+                    ok_all = ok_all and ri
+                    continue
                 if on_resume and is_const(d.value):
                     # fallback for a checkpoint without an iteration counter: legal only under `<restored iter> is None`
                     fb = False
